@@ -6,6 +6,7 @@ import (
 	"go/constant"
 	"go/token"
 	"go/types"
+	"math"
 	"sort"
 	"strings"
 
@@ -46,7 +47,14 @@ type SLookup struct {
 	M, Key  Sum
 	Default Value
 	Arr     bool
+	// ElemZero: the element type is a type parameter; what a missing key yields is the zero value of the element
+	// type of the table the look-up is evaluated on
+	ElemZero bool
 }
+
+// SZeroTP is the zero value of a type parameter: decided at evaluation from the arguments the function is
+// applied to (a parameter of that type, or a table whose key or element type it is).
+type SZeroTP struct{ TP *types.TypeParam }
 
 // SHas is the comma-ok result of m[key].
 type SHas struct{ M, Key Sum }
@@ -83,8 +91,9 @@ type SLen struct{ M Sum }
 
 // SOrd is an ordered comparison of two integers (Op one of < <= > >=).
 type SOrd struct {
-	Op   token.Token
-	A, B Sum
+	Op    token.Token
+	A, B  Sum
+	Float bool // both operands are floats: decided only when both are constants
 }
 
 // SArith is integer arithmetic on small numbers: + - * & | ^ &^ << >> (results beyond 2^30 are not modelled,
@@ -129,6 +138,7 @@ func (SParam) sum()  {}
 func (STable) sum()  {}
 func (SLookup) sum() {}
 func (SHas) sum()    {}
+func (SZeroTP) sum() {}
 func (SRev) sum()    {}
 func (SCall) sum()   {}
 func (SCmp) sum()    {}
@@ -346,6 +356,8 @@ func (tr *translator) stmts(list []ast.Stmt, e env) Sum {
 				}
 				if i < len(vs.Values) {
 					e[v] = tr.expr(vs.Values[i], e)
+				} else if tp, isTP := v.Type().(*types.TypeParam); isTP {
+					e[v] = SZeroTP{TP: tp} // var zero K: the zero value of whatever K is at the call
 				} else {
 					z := tr.f.ZeroOf(v.Type())
 					if z.Kind == VInvalid {
@@ -408,6 +420,14 @@ func (tr *translator) localVar(x ast.Expr) *types.Var {
 		tr.fail(x.Pos(), "assignment to a package-level variable or field")
 	}
 	return v
+}
+
+func isFloatType(t types.Type) bool {
+	if t == nil {
+		return false
+	}
+	b, ok := t.Underlying().(*types.Basic)
+	return ok && b.Info()&types.IsFloat != 0
 }
 
 func isIntType(t types.Type) bool {
@@ -585,11 +605,12 @@ func (tr *translator) assign(s *ast.AssignStmt, e env) env {
 		}
 		k := tr.expr(ix.Index, e)
 		z := tr.f.ZeroOf(mt.Elem())
-		if z.Kind == VInvalid {
+		_, elemParam := mt.Elem().(*types.TypeParam)
+		if z.Kind == VInvalid && !elemParam {
 			tr.fail(ix.Pos(), "%s", z.Why)
 		}
 		if v := lhsVar(s.Lhs[0]); v != nil {
-			e[v] = SLookup{M: m, Key: k, Default: z}
+			e[v] = SLookup{M: m, Key: k, Default: z, ElemZero: elemParam}
 		}
 		if v := lhsVar(s.Lhs[1]); v != nil {
 			e[v] = SHas{M: m, Key: k}
@@ -969,6 +990,10 @@ func (tr *translator) expr(x ast.Expr, e env) Sum {
 			if isIntType(tr.info.TypeOf(n.X)) && isIntType(tr.info.TypeOf(n.Y)) {
 				return SOrd{Op: n.Op, A: tr.expr(n.X, e), B: tr.expr(n.Y, e)}
 			}
+			// two floats (a score against a threshold): decided when both are constants at evaluation
+			if isFloatType(tr.info.TypeOf(n.X)) && isFloatType(tr.info.TypeOf(n.Y)) {
+				return SOrd{Op: n.Op, A: tr.expr(n.X, e), B: tr.expr(n.Y, e), Float: true}
+			}
 		case token.ADD, token.SUB, token.MUL, token.AND, token.OR, token.XOR, token.AND_NOT, token.SHL, token.SHR:
 			if isIntType(tr.info.TypeOf(n.X)) && isIntType(tr.info.TypeOf(n.Y)) {
 				return SArith{Op: n.Op, A: tr.expr(n.X, e), B: tr.expr(n.Y, e)}
@@ -981,10 +1006,11 @@ func (tr *translator) expr(x ast.Expr, e env) Sum {
 			tr.fail(n.Pos(), "index of something that is not a map, an array or a slice")
 		}
 		z := tr.f.ZeroOf(et)
-		if z.Kind == VInvalid {
+		_, elemParam := et.(*types.TypeParam)
+		if z.Kind == VInvalid && !elemParam {
 			tr.fail(n.Pos(), "%s", z.Why)
 		}
-		return SLookup{M: tr.expr(n.X, e), Key: tr.expr(n.Index, e), Default: z, Arr: arr}
+		return SLookup{M: tr.expr(n.X, e), Key: tr.expr(n.Index, e), Default: z, Arr: arr, ElemZero: elemParam}
 	case *ast.SliceExpr:
 		// x[:] of an array or slice table: the same elements
 		if n.Low == nil && n.High == nil && n.Max == nil {
@@ -1014,6 +1040,10 @@ func (tr *translator) expr(x ast.Expr, e env) Sum {
 		callee, _ := typeutil.Callee(tr.info, n).(*types.Func)
 		if callee != nil && callee.FullName() == "strings.EqualFold" && len(n.Args) == 2 {
 			return SCmp{Fold: true, A: tr.expr(n.Args[0], e), B: tr.expr(n.Args[1], e)}
+		}
+		if callee != nil && (callee.FullName() == "math.IsNaN" || callee.FullName() == "math.IsInf") {
+			// the abstract domain holds the numbers the program and the specification mention: no NaN, no infinity
+			return SConst{boolVal(false)}
 		}
 		if callee == nil || callee.Pkg() == nil || !load.IsLib(callee.Pkg().Path()) {
 			tr.fail(n.Pos(), "call of a function outside the library packages or a dynamic call")
@@ -1147,6 +1177,8 @@ func (f *Facts) Eval(fn *types.Func, args ...Value) Value {
 		if len(bound) > 0 {
 			if s2 := f.summarise(fn, bound); s2.Err == "" {
 				s = s2
+			} else {
+				s = s2 // what stops the summary for the table handed in says more than what stops the general one
 			}
 		}
 	}
@@ -1244,13 +1276,57 @@ func (f *Facts) eval(s Sum, b map[*types.Var]Value) Value {
 				return Value{Kind: VInvalid, Why: fmt.Sprintf("index %s is out of the range of %s (run-time panic)", k, name)}
 			}
 		}
+		def := x.Default
+		if x.ElemZero {
+			if t == nil || t.ElemT == nil {
+				return Value{Kind: VInvalid, Why: "look-up of a missing key in a table whose element type is not known"}
+			}
+			def = f.ZeroOf(t.ElemT)
+		}
 		if t == nil {
-			return x.Default
+			return def
 		}
 		if v, ok := t.Lookup(k); ok {
 			return v
 		}
-		return x.Default
+		return def
+	case SZeroTP:
+		var found types.Type
+		for pv, val := range b {
+			var cand types.Type
+			pt := pv.Type()
+			if types.Identical(pt, x.TP) {
+				cand = val.Type
+			} else if val.Kind == VTable && val.T != nil {
+				switch u := pt.Underlying().(type) {
+				case *types.Map:
+					if types.Identical(u.Key(), x.TP) {
+						cand = val.T.KeyT
+					} else if types.Identical(u.Elem(), x.TP) {
+						cand = val.T.ElemT
+					}
+				case *types.Slice:
+					if types.Identical(u.Elem(), x.TP) {
+						cand = val.T.ElemT
+					}
+				case *types.Array:
+					if types.Identical(u.Elem(), x.TP) {
+						cand = val.T.ElemT
+					}
+				}
+			}
+			if cand == nil {
+				continue
+			}
+			if found != nil && !types.Identical(found, cand) {
+				return Value{Kind: VInvalid, Why: "type parameter " + x.TP.String() + " is bound to two types"}
+			}
+			found = cand
+		}
+		if found == nil {
+			return Value{Kind: VInvalid, Why: "no abstract zero value for " + x.TP.String() + " (no argument fixes the type)"}
+		}
+		return f.ZeroOf(found)
 	case SHas:
 		t, ok, bad := f.evalTable(x.M, b)
 		if !ok {
@@ -1329,6 +1405,16 @@ func (f *Facts) eval(s Sum, b map[*types.Var]Value) Value {
 			if v.Kind == VInvalid || v.Kind == VAmbiguous {
 				return v
 			}
+		}
+		if x.Float {
+			// exact comparison of two constants (a tenth is a rational here; a threshold is what the source writes)
+			if av.Kind == VConst && bv.Kind == VConst && av.C != nil && bv.C != nil {
+				ak, bk := av.C.Kind(), bv.C.Kind()
+				if (ak == constant.Int || ak == constant.Float) && (bk == constant.Int || bk == constant.Float) {
+					return boolVal(constant.Compare(av.C, x.Op, bv.C))
+				}
+			}
+			return Value{Kind: VInvalid, Why: fmt.Sprintf("ordered comparison of %s and %s", av, bv)}
 		}
 		ac, aok := numOf(av)
 		bc, bok := numOf(bv)
@@ -1487,6 +1573,17 @@ func (f *Facts) EvalCallExpr(info *types.Info, call *ast.CallExpr) Value {
 	callee, _ := typeutil.Callee(info, call).(*types.Func)
 	if callee == nil {
 		return Value{Kind: VInvalid, Why: "dynamic call"}
+	}
+	if callee.Pkg() != nil && callee.Pkg().Path() == "math" && callee.Name() == "Inf" && len(call.Args) == 1 {
+		// an infinite bound of a table of thresholds: every finite number the rules compare it with (scores, grid
+		// points) stands to the largest finite float as it stands to the infinity
+		if sv := f.StaticValue(info, call.Args[0]); sv.Kind == VConst && sv.C != nil && sv.C.Kind() == constant.Int {
+			m := math.MaxFloat64
+			if constant.Sign(sv.C) < 0 {
+				m = -m
+			}
+			return Value{Kind: VConst, C: constant.MakeFloat64(m), Type: types.Typ[types.Float64]}
+		}
 	}
 	var args []Value
 	if sel, ok := ast.Unparen(call.Fun).(*ast.SelectorExpr); ok {
